@@ -52,7 +52,7 @@ void lq_ctor(LQ *this_, cv_i64 limit)
 __CPROVER_requires(cv_exc_pending == 0 && __CPROVER_is_fresh(this_, sizeof(*this_)) && LOCK_IDLE && gh_q_lock_required == 0)
 __CPROVER_assigns(__CPROVER_object_whole(this_), IQ_STATE, WQ_STATE, BQ_STATE)
 __CPROVER_ensures(cv_exc_pending == 0 && this_->_limit == limit)
-__CPROVER_ensures(iq_head == iq_tail && wq_head == wq_tail && bq_head == bq_tail && wq_slot_pos == QM_NOPOS && bq_slot_pos == QM_NOPOS)   /* starts empty */
+__CPROVER_ensures(iq_head == 0 && iq_tail == 0 && wq_head == 0 && wq_tail == 0 && bq_head == 0 && bq_tail == 0 && wq_slot_pos == QM_NOPOS && bq_slot_pos == QM_NOPOS)   /* starts empty (positions count from 0) */
 __CPROVER_ensures(LQ_WF(this_))
 ;
 #endif
